@@ -3,6 +3,7 @@
 //	helpers14 replay <cases.json> <out.ndjson> [-part k/P] [-from N]   TLC-generated boundary strings, one Call event each
 //	helpers14 record <out.ndjson> [-part k/P] [-from N]                seeded random strings (octets up to 300, texts up to 24)
 //	helpers14 sweep  <out.ndjson> [-part k/P] [-from N]                exhaustive sweeps as compact Chunk / Digest events
+//	helpers14 hist   <hist.json> <out.ndjson> [-part k/P] [-from N]    histories on ONE reused value: Set contents / Get
 //	helpers14 probe  <out.ndjson> <helper> <hex>                       one call under the watchdog (hang confirmation)
 //
 // Every call runs under recover; a watchdog (2 s without progress) records a hang for the input in
@@ -74,7 +75,11 @@ func mobileID(b []byte) *nasType.MobileIdentity5GS {
 	return m
 }
 
+// getters of nasType.MobileIdentity5GS by name, also used on a reused value (hist)
+var midGetters = map[string]func(m *nasType.MobileIdentity5GS) int{}
+
 func getter(name string, f func(m *nasType.MobileIdentity5GS) int) helper {
+	midGetters[name] = f
 	return helper{name: name, maxLen: 300, f: func(b []byte) int { return f(mobileID(b)) }}
 }
 
@@ -112,7 +117,7 @@ var helpers = []helper{
 		_ = nasConvert.SnssaiToModels(&s)
 		return cVal
 	}},
-	{name: "LadnToModels", maxLen: 300, f: func(b []byte) int {
+	{name: "LadnToModels", maxLen: 808, f: func(b []byte) int {
 		if len(nasConvert.LadnToModels(b)) == 0 {
 			return cEmpty
 		}
@@ -243,7 +248,7 @@ var (
 	curItem  atomic.Int64
 	curH     atomic.Int32
 	curLen   atomic.Int32
-	curBuf   [512]byte
+	curBuf   [1024]byte
 	skipHang = os.Getenv("VERIF_C14_SKIPHANG") == "1"
 )
 
@@ -462,6 +467,127 @@ func runItems(items []item, from int) {
 	}
 }
 
+// ---- histories on one reused value
+type HStep struct {
+	Op   string `json:"op"` // "Set" | "Get"
+	Mode string `json:"mode"`
+	In   []int  `json:"in"`
+	H    string `json:"h"`
+}
+type Hist struct {
+	Obj   string  `json:"obj"`
+	Steps []HStep `json:"steps"`
+}
+
+// a value of one of the IE types; contents are stored by assigning the exported fields ("buffer")
+// or through SetLen + the contents setter / copy ("setters", what the decoders do)
+type object struct {
+	kind  string
+	mid   nasType.MobileIdentity5GS
+	dnn   nasType.DNN
+	nssai nasType.RequestedNSSAI
+	cur   []byte
+}
+
+func (o *object) set(mode string, b []byte) {
+	c := append(make([]byte, 0, len(b)), b...) // own copy, capacity = length
+	o.cur = c
+	switch o.kind {
+	case "MobileIdentity5GS":
+		if mode == "buffer" {
+			o.mid.Len, o.mid.Buffer = uint16(len(c)), c
+		} else {
+			o.mid.SetLen(uint16(len(c)))
+			o.mid.SetMobileIdentity5GSContents(c)
+		}
+	case "DNN":
+		if mode == "buffer" {
+			o.dnn.Len, o.dnn.Buffer = uint8(len(c)), c
+		} else {
+			o.dnn.SetLen(uint8(len(c)))
+			copy(o.dnn.Buffer, c)
+		}
+	case "RequestedNSSAI":
+		if mode == "buffer" {
+			o.nssai.Len, o.nssai.Buffer = uint8(len(c)), c
+		} else {
+			o.nssai.SetLen(uint8(len(c)))
+			o.nssai.SetSNSSAIValue(c)
+		}
+	default:
+		ev.Fatal("unknown kind of value %q", o.kind)
+	}
+}
+
+func (o *object) get(name string) int {
+	switch o.kind {
+	case "MobileIdentity5GS":
+		f, ok := midGetters[name]
+		if !ok {
+			ev.Fatal("unknown getter %q", name)
+		}
+		return f(&o.mid)
+	case "DNN":
+		return strClass(o.dnn.GetDNN())
+	case "RequestedNSSAI":
+		l, err := nasConvert.RequestedNssaiToModels(&o.nssai)
+		if err != nil {
+			return cErr
+		}
+		if len(l) == 0 {
+			return cEmpty
+		}
+		return cVal
+	}
+	ev.Fatal("unknown kind of value %q", o.kind)
+	return 0
+}
+
+func guardedGet(o *object, hi int, name string) (code int, pi *pinfo) {
+	curH.Store(int32(hi))
+	copy(curBuf[:], o.cur)
+	curLen.Store(int32(len(o.cur)))
+	tick.Add(1)
+	defer func() {
+		if r := recover(); r != nil {
+			code, pi = cPanic, panicInfo(r)
+		}
+	}()
+	return o.get(name), nil
+}
+
+func runHist(hs Hist, byName map[string]int) {
+	reset := Ev{Op: "TraceReset", In: []int{}, Alpha: []int{}, Codes: []int{}, Sigs: []Sig{}, Counts: []int{}}
+	w.Emit(reset)
+	o := &object{kind: hs.Obj}
+	for _, st := range hs.Steps {
+		switch st.Op {
+		case "Set":
+			if len(st.In) > 255 {
+				ev.Fatal("history contents longer than an 8-bit-length IE")
+			}
+			o.set(st.Mode, ev.Bytes(st.In))
+			e := reset
+			e.Op, e.H, e.In, e.Cls = "Set", hs.Obj, st.In, st.Mode
+			w.Emit(e)
+		case "Get":
+			hi, ok := byName[st.H]
+			if !ok {
+				ev.Fatal("unknown getter %q", st.H)
+			}
+			code, pi := guardedGet(o, hi, st.H)
+			e := reset
+			e.Op, e.H, e.Cls = "Get", st.H, clsName[code]
+			if pi != nil {
+				e.Fn, e.Kind = pi.fn, pi.kind
+			}
+			w.Emit(e)
+		default:
+			ev.Fatal("unknown history step %q", st.Op)
+		}
+	}
+}
+
 type Case struct {
 	H    string `json:"h"`
 	Text bool   `json:"text"`
@@ -570,6 +696,21 @@ func randomInput(h *helper, rng *rand.Rand) []byte {
 	default:
 		n = rng.Intn(h.maxLen + 1)
 	}
+	if rng.Intn(5) == 0 { // a well-formed list of many length-prefixed entries (lengths valid for every list walker)
+		forms := []int{1, 2, 4, 5, 8}
+		var b []byte
+		for k := rng.Intn(41); k > 0; k-- {
+			l := forms[rng.Intn(len(forms))]
+			if len(b)+1+l > h.maxLen {
+				break
+			}
+			b = append(b, byte(l))
+			for i := 0; i < l; i++ {
+				b = append(b, byte(1+rng.Intn(255)))
+			}
+		}
+		return b
+	}
 	b := make([]byte, n)
 	switch rng.Intn(3) {
 	case 0: // arbitrary octets
@@ -653,6 +794,23 @@ func main() {
 				continue
 			}
 			items = append(items, func() { callEvent(hi, in) })
+		}
+	case "hist":
+		b, err := os.ReadFile(pos[0])
+		if err != nil {
+			ev.Fatal("%v", err)
+		}
+		var hs []Hist
+		if err := json.Unmarshal(b, &hs); err != nil {
+			ev.Fatal("%v", err)
+		}
+		w = ev.Create(pos[1])
+		for i := range hs {
+			if i%parts != part {
+				continue
+			}
+			h := hs[i]
+			items = append(items, func() { runHist(h, byName) })
 		}
 	case "record":
 		w = ev.Create(pos[0])
